@@ -409,6 +409,11 @@ Definition fdiv_z (a b : Z) : Z * Z :=                 (* a, b <> 0 *)
   let '(m, e) := rnd53 n d in
   norm2 80 (if Z.eqb (Z.sgn a) (Z.sgn b) then m else - m) e.
 
+(* a computed quotient m * 2^e lies in the finite range of binary64 (always so for 64-bit operands; kept as an
+   explicit check so that a result outside the model is declined, and under the name other proofs destructure) *)
+Definition flt_of_f64 (me : Z * Z) : option (Z * Z) :=
+  if (-1074 <=? snd me) && (snd me <=? 971) then Some me else None.
+
 (* Go's string(rune): the UTF-8 encoding; code points that are not valid give U+FFFD *)
 Definition utf8 (c : Z) : list Z :=
   if (c <? 0) || (1114111 <? c) || ((55296 <=? c) && (c <=? 57343)) then [239; 191; 189]
@@ -601,7 +606,10 @@ Section Open.
                              | VInt y =>
                                if y =? 0 then raise EOther
                                else if Z.rem x y =? 0 then divide (VInt (wrap64 (Z.quot x y))) r'
-                               else divide (VFlt (fst (fdiv_z x y)) (snd (fdiv_z x y))) r'
+                               else match flt_of_f64 (fdiv_z x y) with
+                                    | Some me => divide (VFlt (fst me) (snd me)) r'
+                                    | None => raise EUnspec
+                                    end
                              | VFlt _ _ | VChr _ => raise EUnspec
                              | _ => raise EOther
                              end
